@@ -1623,6 +1623,8 @@ class Exec:
         v = self.eval(node, st)
         if isinstance(v, Opaque) and v.name == 'np.newaxis':
             return NEWAXIS
+        if v is None and isinstance(node, ast.Constant):
+            return NEWAXIS          # np.newaxis is None
         return v
 
     def expr_Subscript(self, node, st):
